@@ -40,6 +40,12 @@ def knownGroupKind (g k : String) : Bool :=
   (g == "apps" && (k == "ReplicaSet" || k == "Deployment" || k == "StatefulSet")) ||
   (g == "apps.kruise.io" && (k == "CloneSet" || k == "StatefulSet" || k == "DaemonSet"))
 
+/-- `knownGroupKind` of a reference whose apiVersion may be malformed (then: no) -/
+def knownRef (g : Option String) (k : String) : Bool :=
+  match g with
+  | some g => knownGroupKind g k
+  | none => false
+
 /-- which finder accepts a reference: a function of the reference's group and kind (and, for the StatefulSet-like
     finder, of the `filter-workload-type` flag) — never of the version, the name or the cluster -/
 def owns (filter : Bool) (g : Option String) (kind : String) : FinderId → Bool
@@ -47,7 +53,7 @@ def owns (filter : Bool) (g : Option String) (kind : String) : FinderId → Bool
   | .advancedDeployment => g == some "apps" && kind == "Deployment"
   | .cloneSet => g == some "apps.kruise.io" && kind == "CloneSet"
   | .daemonSet => g == some "apps.kruise.io" && kind == "DaemonSet"
-  | .stsLike => !filter || (match g with | some g => knownGroupKind g kind | none => false)
+  | .stsLike => !filter || knownRef g kind
 
 /-- the finders consulted, in order: a function of (rolling style, group, kind) -/
 def owners (st : Style) (filter : Bool) (g : Option String) (kind : String) : List FinderId :=
